@@ -350,7 +350,7 @@ func genC15(ctx *Ctx) {
 		emit(ops, "rotation-run")
 	}
 	// concurrent plan creation: first-choice balance
-	for i := 0; i < ctx.Scale(6, 60); i++ {
+	for i := 0; i < ctx.Scale(6, 200); i++ {
 		n := 2 + r.Intn(4)
 		hs := []int{}
 		for h := 1; h <= n; h++ {
@@ -359,7 +359,7 @@ func genC15(ctx *Ctx) {
 		emit([]c15op{{kind: 0, hosts: hs}, {kind: 7, a: 8, b: ctx.Scale(5000, 50000)}, {kind: 3}, {kind: 4, a: 0, b: n + 1}}, "concurrent-balance")
 	}
 	// concurrent use
-	for i := 0; i < ctx.Scale(3, 40); i++ {
+	for i := 0; i < ctx.Scale(3, 120); i++ {
 		emit([]c15op{{kind: 0, hosts: []int{1, 2, 3}}, {kind: 6, a: ctx.Scale(2000, 50000)}}, "concurrent")
 	}
 }
